@@ -68,6 +68,12 @@ type EngineRunner struct {
 	iter    *kv.Iterator
 	iterRef *iterRef
 	probeClose bool
+	// hostile caller (C15): one key buffer and one value buffer are reused for every call and
+	// overwritten after each return; returned values are kept, poisoned and watched
+	hostile  bool
+	keyBuf   []byte
+	valBuf   []byte
+	returned []retSlice
 	mergeSeen []uint32
 	// first data file written entirely under the current DataFileSize (files that were
 	// active in an earlier session may have been filled under another limit)
@@ -331,8 +337,78 @@ func keysDigest(keys [][]byte) string {
 	return fmt.Sprintf("%d %s", len(keys), Md5Hex([]byte(sb.String())))
 }
 
+type retSlice struct {
+	live []byte // the slice the engine handed out
+	want []byte // what it must still hold
+	what string
+}
+
+// hk / hv place an argument into the shared caller buffer (hostile mode) and return the slice passed on.
+func (r *EngineRunner) hk(k []byte) []byte {
+	if !r.hostile || k == nil {
+		return k
+	}
+	if cap(r.keyBuf) < len(k)+8 {
+		r.keyBuf = make([]byte, 0, 2*len(k)+64)
+	}
+	b := r.keyBuf[:len(k)]
+	copy(b, k)
+	return b
+}
+func (r *EngineRunner) hv(v []byte) []byte {
+	if !r.hostile || v == nil {
+		return v
+	}
+	if cap(r.valBuf) < len(v)+8 {
+		r.valBuf = make([]byte, 0, 2*len(v)+64)
+	}
+	b := r.valBuf[:len(v)]
+	copy(b, v)
+	return b
+}
+
+// scribble overwrites the caller's buffers after a call has returned.
+func (r *EngineRunner) scribble() {
+	if !r.hostile {
+		return
+	}
+	for i := range r.keyBuf[:cap(r.keyBuf)] {
+		r.keyBuf[:cap(r.keyBuf)][i] = 0xEE
+	}
+	for i := range r.valBuf[:cap(r.valBuf)] {
+		r.valBuf[:cap(r.valBuf)][i] = 0xDD
+	}
+}
+
+// keep records a slice returned by the engine; the caller then writes into it (it is a private copy).
+func (r *EngineRunner) keep(v []byte, what string) {
+	if !r.hostile || len(v) == 0 {
+		return
+	}
+	for i := range v {
+		v[i] ^= 0xFF
+	}
+	r.returned = append(r.returned, retSlice{v, append([]byte(nil), v...), what})
+	if len(r.returned) > 64 {
+		r.returned = r.returned[len(r.returned)-64:]
+	}
+}
+
+// checkReturned: no later operation may have changed a slice the engine returned earlier.
+func (r *EngineRunner) checkReturned(after string) {
+	for _, x := range r.returned {
+		if !bytes.Equal(x.live, x.want) {
+			r.fail("C15", "the value returned by %s was modified by a later operation (%s)", x.what, after)
+			copy(x.want, x.live)
+		}
+	}
+}
+
 // Exec runs one engine script line; returns the observation.
 func (r *EngineRunner) Exec(f []string) (res string) {
+	if r.hostile {
+		defer func() { r.scribble(); r.checkReturned(strings.Join(f[1:], " ")) }()
+	}
 	defer func() {
 		if e := recover(); e != nil {
 			res = "panic"
@@ -366,6 +442,9 @@ func (r *EngineRunner) Exec(f []string) (res string) {
 		}
 		r.ref.afterOpen(r)
 		return "ok" + r.takeEvents(false)
+	case "hostile":
+		r.hostile = f[2] == "1"
+		return ""
 	case "probeclose": // the next Close is probed: an Open is attempted while Close is at its first file operation
 		r.probeClose = true
 		return ""
@@ -408,7 +487,8 @@ func (r *EngineRunner) Exec(f []string) (res string) {
 		k, _ := ParseTok(f[2])
 		v, _ := ParseTok(f[3])
 		r.so.opKind = "put"
-		err := r.db.Put(k, v)
+		err := r.db.Put(r.hk(k), r.hv(v))
+		r.scribble()
 		r.so.afterOp(r, "put", err == nil, len(r.events) > 0, false)
 		r.so.opKind = "other"
 		r.ref.put(r, k, v, err)
@@ -419,7 +499,8 @@ func (r *EngineRunner) Exec(f []string) (res string) {
 	case "del":
 		k, _ := ParseTok(f[2])
 		r.so.opKind = "del"
-		err := r.db.Delete(k)
+		err := r.db.Delete(r.hk(k))
+		r.scribble()
 		r.so.afterOp(r, "del", err == nil, len(r.events) > 0, false)
 		r.so.opKind = "other"
 		r.ref.del(r, k, err)
@@ -429,12 +510,15 @@ func (r *EngineRunner) Exec(f []string) (res string) {
 		return "ok" + r.takeEvents(false)
 	case "get":
 		k, _ := ParseTok(f[2])
-		v, err := r.db.Get(k)
+		v, err := r.db.Get(r.hk(k))
+		r.scribble()
 		r.ref.get(r, k, v, err)
 		if err != nil {
 			return "err " + EngErr(err) + r.takeEvents(false)
 		}
-		return "ok " + Obs(v) + r.takeEvents(false)
+		out := "ok " + Obs(v) + r.takeEvents(false)
+		r.keep(v, "Get("+f[2]+")")
+		return out
 	case "dump":
 		keys := r.db.ListKeys()
 		d := map[string][]byte{}
@@ -491,7 +575,8 @@ func (r *EngineRunner) Exec(f []string) (res string) {
 	case "bput":
 		k, _ := ParseTok(f[2])
 		v, _ := ParseTok(f[3])
-		err := r.batch.Put(k, v)
+		err := r.batch.Put(r.hk(k), r.hv(v))
+		r.scribble()
 		r.ref.bput(r, k, v, err)
 		if err != nil {
 			return "err " + EngErr(err) + r.takeEvents(false)
@@ -499,7 +584,8 @@ func (r *EngineRunner) Exec(f []string) (res string) {
 		return "ok" + r.takeEvents(false)
 	case "bdel":
 		k, _ := ParseTok(f[2])
-		err := r.batch.Delete(k)
+		err := r.batch.Delete(r.hk(k))
+		r.scribble()
 		r.ref.bdel(r, k, err)
 		if err != nil {
 			return "err " + EngErr(err) + r.takeEvents(false)
@@ -507,12 +593,15 @@ func (r *EngineRunner) Exec(f []string) (res string) {
 		return "ok" + r.takeEvents(false)
 	case "bget":
 		k, _ := ParseTok(f[2])
-		v, err := r.batch.Get(k)
+		v, err := r.batch.Get(r.hk(k))
+		r.scribble()
 		r.ref.bget(r, k, v, err)
 		if err != nil {
 			return "err " + EngErr(err) + r.takeEvents(false)
 		}
-		return "ok " + Obs(v) + r.takeEvents(false)
+		out := "ok " + Obs(v) + r.takeEvents(false)
+		r.keep(v, "Batch.Get("+f[2]+")")
+		return out
 	case "commit":
 		if r.ref.batchCommitted {
 			// a second Commit must be rejected without touching the database lock; run it
